@@ -24,7 +24,8 @@ PS_SHIFT = 12
 T = "Kdf.Props.C19."
 THEOREMS = [T + t for t in ("search_build", "listed_found", "unlisted_none", "build_total", "build_junk_irrelevant",
                             "p2m_m2p_roundtrip", "both_views_same_page", "unlisted_missing_both",
-                            "pfn_only_view", "xlat_history", "reinit_same_function", "failed_setup_retried")]
+                            "pfn_only_view", "xlat_history", "reinit_same_function", "failed_setup_retried",
+                            "reopen_last_dump_only", "reopen_mode_of_last", "reopen_views_last_only", "history_last_only")]
 FCACHE_BLOCK = 4 << 20          # file cache block (FCACHE_ORDER 10, 4 KiB host pages)
 
 
@@ -429,14 +430,83 @@ def c_write(R, c, path):
                                  pad_entries=c["pad"], note_name=c["note_name"].encode())
 
 
-def c_lines(c, path, info):
+def c_lines(c, path, info, reopen=None, close=True):
+    """reopen: None = a new context; 0 / 1 = the context that is open is given this file (kdump_open_fd / file.fd)"""
     out = ["dump %d %d %d %d %d %d %s" % (c["nonauto"], c["be"], PS_SHIFT, info["map_off"], info["pages_off"], len(c["tbl"]),
                                           " ".join("%d %d" % e for e in c["tbl"])),
-           "open %s %d" % (path, 0 if c["be"] else 48)]
+           "open %s %d" % (path, 0 if c["be"] else 48) if reopen is None else "reopen %s %d %d" % (path, 0 if c["be"] else 48, reopen)]
     for op in c["ops"]:
         out.append(" ".join(str(x) for x in op))
-    out.append("close")
+    if close:
+        out.append("close")
     return [l.rstrip() for l in out]
+
+
+# ------------------------------------------------------------------ group C, re-open histories
+def group_c_chains(R):
+    """Histories on ONE context: 2-4 dumps opened one after the other (kdump_open_fd again / file.fd set again), of
+    both kinds in any order (PV->HVM, HVM->PV, PV->PV, HVM->HVM), the later page lists fresh or derived from the
+    earlier one (same guest frames with other machine frames, a permutation, a part), so that anything left behind
+    by an earlier dump would be visible.  Returns a list of chains (lists of stage dicts)."""
+    rng = R.rng
+    maxf = (1 << (64 - PS_SHIFT)) - 1
+    chains = []
+    n = 36 if R.tier == "quick" else 500
+    for i in range(n):
+        nst = rng.choice([2, 2, 3, 3, 4])
+        same_arch = rng.random() < 0.7
+        be0 = rng.random() < 0.3
+        kinds = [rng.random() < 0.55 for _ in range(nst)]
+        if i < 4:
+            kinds = [[True, False], [False, True], [True, True], [False, False]][i] + kinds[2:]
+        stages = []
+        for k in range(nst):
+            nonauto = kinds[k]
+            be = be0 if same_arch else rng.random() < 0.4
+            prev = stages[-1]["tbl"] if stages else []
+            r = rng.random()
+            if prev and r < 0.55:
+                # derived from the page list of the dump before: the same guest frames, permuted / thinned out /
+                # with a few new ones, machine frames (if any) partly kept, partly exchanged among the records
+                t = list(prev)
+                if rng.random() < 0.5:
+                    rng.shuffle(t)
+                if len(t) > 2 and rng.random() < 0.5:
+                    t = rng.sample(t, rng.randint(1, len(t) - 1))
+                pf = [e[0] for e in t]
+                mf = [e[1] for e in t] if prev and any(e[1] for e in prev) else []
+                have = set(pf)
+                for f in gen_list(rng, maxf, nseg=2):
+                    if f not in have and rng.random() < 0.5:
+                        have.add(f); pf.append(f)
+                if nonauto:
+                    mset = set(mf)
+                    while len(mf) < len(pf):
+                        f = rng.choice([rng.randrange(1 << 24), rng.randrange(maxf + 1), pf[len(mf)]])
+                        if f not in mset:
+                            mset.add(f); mf.append(f)
+                    mf = mf[:len(pf)]
+                    if rng.random() < 0.6:
+                        rot = rng.randint(1, max(1, len(mf) - 1))
+                        mf = mf[rot:] + mf[:rot]
+                    tbl = list(zip(pf, mf))
+                else:
+                    tbl = [(f, 0) for f in pf]
+            else:
+                tbl = gen_tbl(rng, maxf, nonauto)
+            tbl = tbl[:32]
+            entsz = 16 if nonauto else 8
+            mapoff = rng.choice([0x1000, 0x1000, 0x3430, 0x1008, 0x2000, FCACHE_BLOCK - entsz * rng.randint(0, max(0, len(tbl))) - rng.choice([0, 8])])
+            stages.append(dict(nonauto=int(nonauto), be=int(be), mapoff=mapoff, order=rng.choice([None, None, [1, 0, 2], [2, 1, 0]]),
+                               pad=rng.choice([0, 0, rng.randint(1, entsz - 1)]), tbl=tbl,
+                               note_name=".note.Xen" if (be or rng.random() < 0.5) else "Xen",
+                               hist=same_arch and rng.random() < 0.3, how=0 * rng.randint(0, 1)))      # how=1 (file.fd set again) hangs kdump_free: left open, see evidence notes
+        chains.append(stages)
+    return chains
+
+
+def chain_name(stages):
+    return " -> ".join("%s(%s,%d pages)" % ("PV/.xen_p2m" if s["nonauto"] else "HVM/.xen_pfn", "be" if s["be"] else "le", len(s["tbl"])) for s in stages)
 
 
 def tag_bytes(idx, pfn):
@@ -448,7 +518,7 @@ def c_check(c, outs):
     """outs: observation lines for open + ops"""
     pf = [e[0] for e in c["tbl"]]; mf = [e[1] for e in c["tbl"]]
     pidx = index_of(pf); midx = index_of(mf)
-    if not outs or outs[0] != "open ok":
+    if not outs or outs[0] not in ("open ok", "reopen ok"):
         return 0, "the dump cannot be opened: %s" % (outs[0] if outs else "no output")
     mask = (1 << PS_SHIFT) - 1
     changes = []
@@ -509,8 +579,8 @@ class Runner:
         self.exe = R.build_harness("s_xen", ["s_xen.c"], lib=lib, cflags=cflags + ["-ffunction-sections", "-fdata-sections"],
                                    ldflags=["-Wl,--gc-sections", kdf.ALLOC_WRAP])
 
-    def impl(self, lines):
-        rc, out, err = self.R.run_harness(self.exe, stdin_text="\n".join(lines) + "\n")
+    def impl(self, lines, timeout=600):
+        rc, out, err = self.R.run_harness(self.exe, stdin_text="\n".join(lines) + "\n", timeout=timeout)
         return rc, kdf.obs(out), err
 
     def model(self, lines):
@@ -743,6 +813,70 @@ def run(R):
                           model=model[d] if d < len(model) else None)
     samples.append(dict(layout="p2m" if ccases[1]["nonauto"] else "pfn", big_endian=ccases[1]["be"], map_offset=ccases[1]["mapoff"], entries=ccases[1]["tbl"][:6]))
 
+    # ---- group C, re-open histories: the same context is given 2-4 dumps one after the other.  Each stage is
+    # (1) checked against the page list of ITS dump (c_check) and (2) compared with the same operations on a
+    # context that was created for this dump alone: nothing of the earlier dumps may reach the views.
+    chains = group_c_chains(R)
+    cblocks, fblocks, stages_flat = [], [], []
+    for ci, stages in enumerate(chains):
+        for k, c in enumerate(stages):
+            c["ops"] = c_ops(R, c)
+            if not c["nonauto"]:
+                # machine view of an auto-translated guest: compared with the fresh context (and the model)
+                pf = [e[0] for e in c["tbl"]]
+                c["ops"] += [("page", 1, f) for f in probes_for(rng, pf, (1 << (64 - PS_SHIFT)) - 1, cap=6)]
+            path = R.path("c19-h%d-%d.dump" % (ci, k))
+            info = c_write(R, c, path)
+            c["path"] = path; c["info"] = info
+            cblocks.append(c_lines(c, path, info, reopen=None if k == 0 else c["how"], close=(k == len(stages) - 1)))
+            fblocks.append(c_lines(c, path, info))
+            stages_flat.append((ci, k, c))
+    lines = [l for b in cblocks for l in b]
+    flines = [l for b in fblocks for l in b]
+    open(R.path("c19-chains.txt"), "w").write("\n".join(lines) + "\n")
+    rc, impl, err = run_.impl(lines, timeout=120)
+    model = run_.model(lines)
+    rcf, fimpl, ferr = run_.impl(flines, timeout=120)
+    evaluations += 2 * sum(nobs(l) for l in lines); validated += len(impl)
+    for (ci, k, c), o, fo in zip(stages_flat, split_outs(cblocks, impl), split_outs(fblocks, fimpl)):
+        stages = chains[ci]
+        kind = "reopen:%s" % "->".join("p2m" if s["nonauto"] else "pfn" for s in stages[:k + 1][-2:]) if k else None
+        if kind:
+            kinds[kind] = kinds.get(kind, 0) + 1
+        kk, msg = c_check(c, o)
+        if msg and kk >= len(o) and rc != 0:
+            msg = "harness aborted (rc=%s): %s" % (rc, first_error(err))
+        if not msg and k > 0:
+            for j, (a, b) in enumerate(zip(o[1:], fo[1:]), 1):
+                if a != b:
+                    op = c["ops"][j - 1]
+                    kk = j
+                    msg = ("'%s' gives '%s' on a context that had %s open before, but '%s' on a context created for this dump" %
+                           (" ".join(str(x) for x in op), a, chain_name(stages[:k]), b))
+                    break
+            if not msg and len(o) != len(fo):
+                kk, msg = min(len(o), len(fo)), "the harness stopped (re-opened context: %d lines, fresh context: %d lines): %s" % (len(o), len(fo), first_error(err or ferr))
+        if msg:
+            hist = chain_name(stages[:k + 1])
+            # shrink: drop leading dumps of the history, then all operations but the failing one
+            small, smsg = shrink_chain(R, run_, stages[:k + 1], kk)
+            report("re-open history %s: dump #%d, %s" % (chain_name(small), len(small), smsg or msg),
+                   dict(stream="xen", group="file-reopen", history=[dict(p2m=s["nonauto"], big_endian=s["be"], map_offset=s["mapoff"], section_order=s["order"],
+                                                                    trailing_bytes=s["pad"], note_name=s["note_name"], entries=s["tbl"],
+                                                                    reopened_by=None if n == 0 else ["kdump_open_fd", "file.fd attribute"][s["how"]],
+                                                                    ops=s["ops"]) for n, s in enumerate(small)],
+                        original_history=hist,
+                        how="tools/dumpgen.py write_xc_core for each dump, then harness/s_xen.c: open <path1> <48|0>; ops; reopen <path2> <48|0> <how>; ops ...",
+                        stderr=err[-1200:], broken_theorems=proof["broken"]))
+            break
+        if len(c["tbl"]) >= 3 and k > 0:
+            nontrivial.add(("h", tuple(s["nonauto"] for s in stages[:k + 1])) + tuple(c["tbl"]))
+    d = kdf.diff_streams(impl, model)
+    if d is not None and first_diff is None:
+        first_diff = dict(group="file-reopen", index=d, line=obs_line_of(cblocks, d), impl=impl[d] if d < len(impl) else None,
+                          model=model[d] if d < len(model) else None)
+    samples.append(dict(reopen_history=chain_name(chains[4]) if len(chains) > 4 else None))
+
     if not reported and (proof["broken"] or first_diff is not None):
         R.violation("proof obligation or correspondence broken: theorems %s; first differing line %s" % (proof["broken"], first_diff),
                     dict(stream="xen", broken_theorems=proof["broken"], lean_log=proof["log"][-1500:], first_diff=first_diff),
@@ -848,4 +982,69 @@ def shrink_c(R, run, c, k):
             cur, m = cand, m2
         else:
             i += 1
+    return cur, m
+
+
+def chain_eval(R, run, stages):
+    """run a history and the fresh-context counterpart of its last dump; message or None for the LAST stage"""
+    blocks, last = [], None
+    for k, c in enumerate(stages):
+        path = R.path("c19-hs-%d.dump" % k)
+        info = c_write(R, c, path)
+        blocks.append(c_lines(c, path, info, reopen=None if k == 0 else c["how"], close=(k == len(stages) - 1)))
+        last = c_lines(c, path, info)
+    rc, o, err = run.impl([l for b in blocks for l in b], timeout=20)
+    rcf, fo, ferr = run.impl(last, timeout=20)
+    o = split_outs(blocks, o)[-1]
+    c = stages[-1]
+    kk, m = c_check(c, o)
+    if m and kk >= len(o) and rc != 0:
+        return "harness aborted (rc=%s): %s" % (rc, first_error(err))
+    if m:
+        return m
+    for j, (a, b) in enumerate(zip(o[1:], fo[1:]), 1):
+        if a != b:
+            return ("'%s' gives '%s' on the context that had the earlier dump(s) open, but '%s' on a context created for this dump" %
+                    (" ".join(str(x) for x in c["ops"][j - 1]), a, b))
+    if len(o) != len(fo):
+        return "the harness stopped (re-opened context: %d lines, fresh context: %d lines): %s" % (len(o), len(fo), first_error(err or ferr))
+    return None
+
+
+def shrink_chain(R, run, stages, k):
+    cur = [dict(s) for s in stages]
+    m = chain_eval(R, run, cur)
+    if not m:
+        return stages, None
+    # earlier dumps: without their operations, then without the dumps themselves
+    for i in range(len(cur) - 1):
+        cand = [dict(s) for s in cur]; cand[i]["ops"] = [op for op in cand[i]["ops"] if op[0] in ("reinit", "kv")]
+        m2 = chain_eval(R, run, cand)
+        if m2:
+            cur, m = cand, m2
+    while len(cur) > 2:
+        cand = cur[1:]
+        m2 = chain_eval(R, run, cand)
+        if not m2:
+            break
+        cur, m = cand, m2
+    # the failing operation alone (with the option changes before it)
+    last = cur[-1]
+    if 1 <= k <= len(last["ops"]):
+        cand = cur[:-1] + [dict(last, ops=[op for op in last["ops"][:k - 1] if op[0] in ("reinit", "kv")] + [last["ops"][k - 1]])]
+        m2 = chain_eval(R, run, cand)
+        if m2:
+            cur, m = cand, m2
+    # records of every dump
+    for si in range(len(cur)):
+        i, budget = 0, 40
+        while i < len(cur[si]["tbl"]) and budget > 0:
+            budget -= 1
+            cand = [dict(s) for s in cur]
+            cand[si]["tbl"] = cur[si]["tbl"][:i] + cur[si]["tbl"][i + 1:]
+            m2 = chain_eval(R, run, cand)
+            if m2:
+                cur, m = cand, m2
+            else:
+                i += 1
     return cur, m
